@@ -350,8 +350,24 @@ def finish(prop, tier, conds, results, seed, hseed, t_start, verbose):
             prop, fnd["id"], fnd["description"],
             "" if seen_now else " [not met inside this run's bound]"))
 
-    exhaustive = all(pc["confirmed"] == pc["shards"] for pc in per_cond.values()) and not harness_errors \
-        and bool(per_cond)
+    # the thorough tier schedules the validated shards of each generator (registry.Cond.shards); the evidence
+    # states how much of the generator's scope that is, and a run is exhaustive only for a complete scope
+    full_counts = {}
+    prev = os.environ.get("VF_ALL_SHARDS")
+    os.environ["VF_ALL_SHARDS"] = "1"
+    try:
+        for c in conds:
+            full_counts[c.name] = len(c.shards(tier))
+    finally:
+        if prev is None:
+            del os.environ["VF_ALL_SHARDS"]
+        else:
+            os.environ["VF_ALL_SHARDS"] = prev
+    for c in conds:
+        if c.name in per_cond:
+            per_cond[c.name]["shards_of_stated_scope"] = full_counts[c.name]
+    exhaustive = all(pc["confirmed"] == pc["shards"] == pc.get("shards_of_stated_scope", pc["shards"])
+                     for pc in per_cond.values()) and not harness_errors and bool(per_cond)
     wall = round(time.time() - t_start, 2)
     evidence = {
         "property_id": prop, "tier": tier, "seed": seed, "level": "other",
@@ -367,7 +383,12 @@ def finish(prop, tier, conds, results, seed, hseed, t_start, verbose):
             "solver": {"engine": "crosshair-tool 0.0.110 / z3 (z3-solver wheel)", "queries": z3q,
                        "solver_seconds": round(z3s, 2)},
             "conditions": [{
-                "name": c.name, "bound": c.bound.get(tier), "functions_driven": c.functions,
+                "name": c.name,
+                "bound": (c.bound.get(tier) or "") + (
+                    "" if per_cond.get(c.name, {}).get("shards", 0) == full_counts.get(c.name)
+                    else " [this run scheduled %d of the %d shards that make up this scope]" % (
+                        per_cond.get(c.name, {}).get("shards", 0), full_counts.get(c.name, 0))),
+                "functions_driven": c.functions,
                 "stubs": c.stubs,
                 **{k: (round(v, 2) if isinstance(v, float) else v)
                    for k, v in per_cond.get(c.name, {}).items()}} for c in conds],
